@@ -235,6 +235,30 @@ func init() {
 				executors["history"](c, "history.random", M{"op": "history", "origin": hx([]byte(u.origin)), "ops": ops})
 			}
 		}},
+		Stream{"history.rekey", func(c *Ctx) {
+			// one owner, one credential id, several authenticators: the owner re-registers the id again and again, with authentications
+			// by the current and by earlier keys in between (any state kept beside the stored binding — a cache, a memo — shows here)
+			n := c.N(60, 3000)
+			for i := 0; i < n; i++ {
+				u := newUniverse(c.R, 2, 3, 1)
+				owner, id := u.users[0], u.ids[0]
+				var ops []M
+				length := 5 + c.R.Intn(6)
+				ops = append(ops, u.regOp(c.R, owner, u.auths[0], id, ""), u.authOp(c.R, owner, pick(c.R, u.auths), id, ""))
+				for j := 0; j < length; j++ {
+					a := pick(c.R, u.auths)
+					switch c.R.Intn(6) {
+					case 0, 1:
+						ops = append(ops, u.regOp(c.R, owner, a, id, ""))
+					case 2:
+						ops = append(ops, u.regOp(c.R, u.users[1], a, id, "")) // another user tries to take the id
+					default:
+						ops = append(ops, u.authOp(c.R, owner, a, id, ""))
+					}
+				}
+				executors["history"](c, "history.rekey", M{"op": "history", "origin": hx([]byte(u.origin)), "ops": ops})
+			}
+		}},
 		Stream{"history.exhaustive", func(c *Ctx) {
 			// all histories up to a bounded depth over a 2-user / 2-authenticator / 2-id universe with ops {register, authenticate}
 			depth := c.N(3, 4)
